@@ -4,11 +4,15 @@
 // Part A drives iterable.Map with C10-style histories (exhaustive to a depth bound, and seeded random
 // long ones). After every call the list walked by the hook VerifWalk must stay within the bound given
 // by the live entries plus the open iterators; every history ends by closing every iterator, after
-// which exactly Len()+1 nodes (the sentinel), no removed entry and no reference may be left.
+// which exactly Len()+1 nodes (the sentinel), no removed entry and no reference may be left. Iterators
+// are also driven through the library's own combinator iterable.Mixer (map iterators mixed with each
+// other, with a foreign source, with a foreign source whose Close reports an error, nested): the user
+// closes the Mixer only, every map iterator below it counts as closed from then on.
 // Part B drives lru.Cache / lru.ECache with long histories of GetOrCreate / Remove / Clear for every
 // capacity 1..64; after every call the nodes reachable from the cache's recency list must not exceed
 // capacity+1. A history that breaks the bound is re-run with operation kinds filtered out to find the
-// kind of call the growth follows; that kind is part of the signature.
+// kind of call the growth follows; that kind is part of the signature. Two history classes let the
+// onDelete callback panic inside Remove / Clear (the caller recovers and goes on using the cache).
 package c11
 
 import (
@@ -93,13 +97,30 @@ const (
 	opNext                  // A = slot (must be open)
 	opClose                 // A = slot (must be open)
 	opFirst                 // the library's own iterator use
+	opNewMix                // A = slot that receives an iterable.Mixer over map iterators (must be free), V = variant
 )
 
-var opNames = []string{"Add", "Remove", "NewIterator", "HasNext", "Next", "Close", "First"}
+var opNames = []string{"Add", "Remove", "NewIterator", "HasNext", "Next", "Close", "First", "NewMixer"}
+
+// closing a slot that holds a Mixer is reported under this name
+const mixerClose = "MixerClose"
 
 type op struct {
 	K opKind `json:"k"`
 	A int    `json:"a"`
+	V int    `json:"v,omitempty"`
+}
+
+// mixVariants: what opNewMix builds; pins = number of map iterators handed to the Mixer(s).
+var mixVariants = []struct {
+	text string
+	pins int
+}{
+	{"Mixer(source whose Close fails, Iterator())", 1},
+	{"Mixer(Iterator(), source whose Close fails)", 1},
+	{"Mixer(Iterator(), Iterator())", 2},
+	{"Mixer(slice source, Iterator())", 1},
+	{"Mixer(Mixer(Iterator(), source whose Close fails), Iterator())", 2},
 }
 
 func keyName(k int) string { return string(rune('a' + k - 1)) }
@@ -110,6 +131,11 @@ func (o op) String() string {
 		return fmt.Sprintf("%s(%s)", opNames[o.K], keyName(o.A))
 	case opNewIt:
 		return fmt.Sprintf("it%d=Iterator()", o.A)
+	case opNewMix:
+		if o.V >= 0 && o.V < len(mixVariants) {
+			return fmt.Sprintf("it%d=%s", o.A, mixVariants[o.V].text)
+		}
+		return fmt.Sprintf("it%d=Mixer(?%d)", o.A, o.V)
 	case opHasNext, opNext, opClose:
 		return fmt.Sprintf("it%d.%s()", o.A, opNames[o.K])
 	}
@@ -140,8 +166,56 @@ type iterT = iterable.Iterator[iterable.MapEntry[int, int]]
 type mapDriver struct {
 	m     *mapT
 	its   []iterT
-	open  int
+	pins  []int // per slot: map iterators below it (1 for a plain iterator)
+	open  int   // map iterators not yet closed by their owner
 	nextV int
+}
+
+var errForeignClose = errors.New("close of the foreign source failed (injected)")
+
+// foreignIt is a source that does not belong to the map: a slice of entries; its Close reports
+// closeErr (a remote source whose connection is gone).
+type foreignIt struct {
+	vals     []iterable.MapEntry[int, int]
+	idx      int
+	closeErr error
+}
+
+func (f *foreignIt) HasNext() bool { return f.idx < len(f.vals) }
+func (f *foreignIt) Next() (iterable.MapEntry[int, int], bool) {
+	if f.idx >= len(f.vals) {
+		return iterable.MapEntry[int, int]{}, false
+	}
+	f.idx++
+	return f.vals[f.idx-1], true
+}
+func (f *foreignIt) Close() error { return f.closeErr }
+
+func byKey(a, b iterable.MapEntry[int, int]) bool { return a.Key <= b.Key }
+
+// newMixer builds variant v over fresh iterators of m.
+func newMixer(m *mapT, keys, v int) iterT {
+	foreign := func(err error) iterT {
+		return &foreignIt{vals: []iterable.MapEntry[int, int]{{Key: 1, Value: -1}, {Key: keys, Value: -2}}, closeErr: err}
+	}
+	mx := new(iterable.Mixer[iterable.MapEntry[int, int]])
+	switch v {
+	case 0:
+		mx.Init(byKey, foreign(errForeignClose), m.Iterator())
+	case 1:
+		mx.Init(byKey, m.Iterator(), foreign(errForeignClose))
+	case 2:
+		mx.Init(byKey, m.Iterator(), m.Iterator())
+	case 3:
+		mx.Init(byKey, foreign(nil), m.Iterator())
+	case 4:
+		in := new(iterable.Mixer[iterable.MapEntry[int, int]])
+		in.Init(byKey, m.Iterator(), foreign(errForeignClose))
+		mx.Init(byKey, in, m.Iterator())
+	default:
+		return nil
+	}
+	return mx
 }
 
 // check is the invariant at the hook after the call named opName.
@@ -188,16 +262,23 @@ func opNameIdx(n string) int {
 			return i + 1
 		}
 	}
+	if n == mixerClose {
+		return len(opNames) + 1
+	}
 	return 0
 }
 
 // runMapCase executes the case. aborted != "" means a call panicked: the history could not be served,
 // which is C10's subject; nothing is decided here.
 func runMapCase(k kase, visit func(uint64)) (v *vio, aborted string, illegal bool) {
-	d := &mapDriver{m: iterable.NewMap[int, int](), its: make([]iterT, k.Slots)}
+	d := &mapDriver{m: iterable.NewMap[int, int](), its: make([]iterT, k.Slots), pins: make([]int, k.Slots)}
 	noteMap()
 	do := func(o op, where string) (*vio, string, bool) {
 		var pan any
+		name := opNames[0]
+		if int(o.K) < len(opNames) {
+			name = opNames[o.K]
+		}
 		switch o.K {
 		case opAdd:
 			if o.A < 1 || o.A > k.Keys {
@@ -219,7 +300,17 @@ func runMapCase(k kase, visit func(uint64)) (v *vio, aborted string, illegal boo
 				if d.its[o.A] == nil {
 					return nil, "Iterator() returned nil", false
 				}
+				d.pins[o.A] = 1
 				d.open++
+			}
+		case opNewMix:
+			if o.A < 0 || o.A >= k.Slots || d.its[o.A] != nil || o.V < 0 || o.V >= len(mixVariants) {
+				return nil, "", true
+			}
+			pan = guard(func() { d.its[o.A] = newMixer(d.m, k.Keys, o.V) })
+			if pan == nil {
+				d.pins[o.A] = mixVariants[o.V].pins
+				d.open += d.pins[o.A]
 			}
 		case opHasNext, opNext, opClose:
 			if o.A < 0 || o.A >= k.Slots || d.its[o.A] == nil {
@@ -232,8 +323,14 @@ func runMapCase(k kase, visit func(uint64)) (v *vio, aborted string, illegal boo
 			case opNext:
 				pan = guard(func() { it.Next() })
 			default:
+				// the error of a Mixer's Close is that of its foreign source; the owner of the Mixer has
+				// nothing else to close
+				if _, ok := it.(*iterable.Mixer[iterable.MapEntry[int, int]]); ok {
+					name = mixerClose
+				}
 				d.its[o.A] = nil
-				d.open--
+				d.open -= d.pins[o.A]
+				d.pins[o.A] = 0
 				pan = guard(func() { _ = it.Close() })
 			}
 		case opFirst:
@@ -244,7 +341,7 @@ func runMapCase(k kase, visit func(uint64)) (v *vio, aborted string, illegal boo
 		if pan != nil {
 			return nil, fmt.Sprintf("%s: panic: %v", where, pan), false
 		}
-		return d.check(opNames[o.K], where, visit), "", false
+		return d.check(name, where, visit), "", false
 	}
 	for i, o := range k.Ops {
 		if v, ab, ill := do(o, fmt.Sprintf("step %d %s", i, o)); v != nil || ab != "" || ill {
@@ -256,7 +353,7 @@ func runMapCase(k kase, visit func(uint64)) (v *vio, aborted string, illegal boo
 		if d.its[s] == nil {
 			return nil, "", false
 		}
-		o := op{opClose, s}
+		o := op{K: opClose, A: s}
 		return do(o, fmt.Sprintf("closing phase %s", o))
 	}
 	if k.Rev {
@@ -360,7 +457,7 @@ type gen struct {
 	used          int
 }
 
-func (g gen) next(keys, slots int, f func(o op, g2 gen)) {
+func (g gen) next(keys, slots int, mix bool, f func(o op, g2 gen)) {
 	for k := 1; k <= keys && k <= g.used+1; k++ {
 		g2 := g
 		if k == g.used+1 {
@@ -368,27 +465,32 @@ func (g gen) next(keys, slots int, f func(o op, g2 gen)) {
 		}
 		g2.present ^= 1 << k
 		if g.present&(1<<k) != 0 {
-			f(op{opRemove, k}, g2)
+			f(op{K: opRemove, A: k}, g2)
 		} else {
-			f(op{opAdd, k}, g2)
+			f(op{K: opAdd, A: k}, g2)
 		}
 	}
-	f(op{opFirst, 0}, g)
+	f(op{K: opFirst, A: 0}, g)
 	for s := 0; s < slots; s++ {
 		if g.open&(1<<s) == 0 {
 			g2 := g
 			g2.open |= 1 << s
-			f(op{opNewIt, s}, g2)
+			f(op{K: opNewIt, A: s}, g2)
+			if mix {
+				for v := range mixVariants {
+					f(op{K: opNewMix, A: s, V: v}, g2)
+				}
+			}
 			break
 		}
 	}
 	for s := 0; s < slots; s++ {
 		if g.open&(1<<s) != 0 {
-			f(op{opHasNext, s}, g)
-			f(op{opNext, s}, g)
+			f(op{K: opHasNext, A: s}, g)
+			f(op{K: opNext, A: s}, g)
 			g2 := g
 			g2.open &^= 1 << s
-			f(op{opClose, s}, g2)
+			f(op{K: opClose, A: s}, g2)
 		}
 	}
 }
@@ -402,7 +504,7 @@ func popcount(x uint) int {
 }
 
 // runNode runs one sequence followed by the closing phase (both closing orders when they differ).
-func runNode(c *collector, keys, slots int, ops []op, g gen, count bool) bool {
+func runNode(c *collector, keys, slots int, ops []op, g gen, count bool, counter string) bool {
 	clean := true
 	for _, rev := range []bool{false, true} {
 		if rev && popcount(g.open) < 2 {
@@ -436,7 +538,7 @@ func runNode(c *collector, keys, slots int, ops []op, g gen, count bool) bool {
 		}
 	}
 	if count {
-		c.Counters["map_enumerated_sequences"]++
+		c.Counters[counter]++
 	}
 	return clean
 }
@@ -451,7 +553,12 @@ func closingText(k kase) string {
 // enumerate runs every legal sequence of length 1..depth (prefix-closed; a violating sequence is not
 // extended). Unit u (a sequence of length split with everything below it) belongs to shard u mod of;
 // shorter sequences are run by every shard and counted by shard 0.
-func enumerate(c *collector, keys, slots, depth, shard, of int) {
+// With mix a free slot can also receive each variant of Mixer.
+func enumerate(c *collector, keys, slots, depth int, mix bool, shard, of int) {
+	counter := "map_enumerated_sequences"
+	if mix {
+		counter = "map_enumerated_sequences_with_mixers"
+	}
 	split := 5
 	if depth < split {
 		split = depth
@@ -462,7 +569,7 @@ func enumerate(c *collector, keys, slots, depth, shard, of int) {
 		if len(ops) >= depth {
 			return
 		}
-		g.next(keys, slots, func(o op, g2 gen) {
+		g.next(keys, slots, mix, func(o op, g2 gen) {
 			ops2 := append(ops, o)
 			count := true
 			switch {
@@ -475,12 +582,25 @@ func enumerate(c *collector, keys, slots, depth, shard, of int) {
 					return
 				}
 			}
-			if runNode(c, keys, slots, ops2, g2, count) {
+			if mix && !hasMixer(ops2) {
+				rec(ops2, g2) // the plain enumeration has this sequence; only its extensions are of interest here
+				return
+			}
+			if runNode(c, keys, slots, ops2, g2, count, counter) {
 				rec(ops2, g2)
 			}
 		})
 	}
 	rec(make([]op, 0, depth), gen{})
+}
+
+func hasMixer(ops []op) bool {
+	for _, o := range ops {
+		if o.K == opNewMix {
+			return true
+		}
+	}
+	return false
 }
 
 // ---------------------------------------------------------------------------------------------
@@ -490,21 +610,24 @@ type profile struct {
 	name                                             string
 	keys, slots                                      int
 	add, remove, newIt, hasNext, next, close_, first int // weights
+	mix                                              int // weight of a new Mixer (a random variant)
 }
 
 var profiles = []profile{
-	{"balanced-5k-8it", 5, 8, 20, 18, 10, 14, 22, 8, 4},
-	{"remove-heavy-5k-8it", 5, 8, 18, 30, 8, 12, 18, 8, 4},
-	{"close-heavy-5k-8it", 5, 8, 16, 16, 20, 8, 14, 20, 4},
-	{"small-2k-3it", 2, 3, 20, 20, 10, 14, 20, 10, 4},
-	{"walkers-3k-8it", 3, 8, 14, 14, 10, 20, 32, 6, 2},
+	{"balanced-5k-8it", 5, 8, 20, 18, 10, 14, 22, 8, 4, 0},
+	{"remove-heavy-5k-8it", 5, 8, 18, 30, 8, 12, 18, 8, 4, 0},
+	{"close-heavy-5k-8it", 5, 8, 16, 16, 20, 8, 14, 20, 4, 0},
+	{"small-2k-3it", 2, 3, 20, 20, 10, 14, 20, 10, 4, 0},
+	{"walkers-3k-8it", 3, 8, 14, 14, 10, 20, 32, 6, 2, 0},
+	{"mixers-4k-6it", 4, 6, 18, 18, 5, 14, 24, 10, 3, 8},
+	{"mixers-remove-heavy-3k-4it", 3, 4, 18, 28, 2, 10, 20, 12, 2, 10},
 }
 
 func randomCase(rng *rand.Rand, p profile, n int) kase {
 	k := kase{Keys: p.keys, Slots: p.slots}
 	open := make([]bool, p.slots)
 	nopen := 0
-	total := p.add + p.remove + p.newIt + p.hasNext + p.next + p.close_ + p.first
+	total := p.add + p.remove + p.newIt + p.hasNext + p.next + p.close_ + p.first + p.mix
 	pickOpen := func() int {
 		j := rng.Intn(nopen)
 		for s, o := range open {
@@ -522,9 +645,9 @@ func randomCase(rng *rand.Rand, p profile, n int) kase {
 		var o op
 		switch {
 		case x < p.add:
-			o = op{opAdd, 1 + rng.Intn(p.keys)}
+			o = op{K: opAdd, A: 1 + rng.Intn(p.keys)}
 		case x < p.add+p.remove:
-			o = op{opRemove, 1 + rng.Intn(p.keys)}
+			o = op{K: opRemove, A: 1 + rng.Intn(p.keys)}
 		case x < p.add+p.remove+p.newIt:
 			if nopen == p.slots {
 				continue
@@ -535,17 +658,17 @@ func randomCase(rng *rand.Rand, p profile, n int) kase {
 			}
 			open[s] = true
 			nopen++
-			o = op{opNewIt, s}
+			o = op{K: opNewIt, A: s}
 		case x < p.add+p.remove+p.newIt+p.hasNext:
 			if nopen == 0 {
 				continue
 			}
-			o = op{opHasNext, pickOpen()}
+			o = op{K: opHasNext, A: pickOpen()}
 		case x < p.add+p.remove+p.newIt+p.hasNext+p.next:
 			if nopen == 0 {
 				continue
 			}
-			o = op{opNext, pickOpen()}
+			o = op{K: opNext, A: pickOpen()}
 		case x < p.add+p.remove+p.newIt+p.hasNext+p.next+p.close_:
 			if nopen == 0 {
 				continue
@@ -553,9 +676,20 @@ func randomCase(rng *rand.Rand, p profile, n int) kase {
 			s := pickOpen()
 			open[s] = false
 			nopen--
-			o = op{opClose, s}
+			o = op{K: opClose, A: s}
+		case x < p.add+p.remove+p.newIt+p.hasNext+p.next+p.close_+p.mix:
+			if nopen == p.slots {
+				continue
+			}
+			s := 0
+			for open[s] {
+				s++
+			}
+			open[s] = true
+			nopen++
+			o = op{K: opNewMix, A: s, V: rng.Intn(len(mixVariants))}
 		default:
-			o = op{opFirst, 0}
+			o = op{K: opFirst, A: 0}
 		}
 		k.Ops = append(k.Ops, o)
 	}
@@ -571,6 +705,11 @@ func randomMapPass(c *collector, seed int64, seqs, length, shard, of int) {
 		v, ab, _ := runMapCase(k, c.visit)
 		c.Counters["map_random_histories"]++
 		c.Counters["map_random_operations"] += int64(len(k.Ops))
+		for _, o := range k.Ops {
+			if o.K == opNewMix {
+				c.Counters["map_random_mixers"]++
+			}
+		}
 		switch {
 		case v != nil:
 			k.Text = seqText(k.Ops)
@@ -608,6 +747,9 @@ func (e extCache) Remove(k int) bool              { return e.ECache.Remove(&pkT{
 
 var errCreate = errors.New("create failed (injected)")
 
+// errCallback is the value the onDelete callback panics with when a call carries a fault
+var errCallback = errors.New("onDelete callback failed (injected panic)")
+
 const failingKey = 1_000_000 // keys >= failingKey cannot be created
 
 // lruCase is the witness of part B: the history is regenerated from it.
@@ -623,8 +765,9 @@ type lruCase struct {
 }
 
 type lruOp struct {
-	kind byte // 'G' GetOrCreate, 'R' Remove, 'C' Clear
-	key  int
+	kind  byte // 'G' GetOrCreate, 'R' Remove, 'C' Clear
+	key   int
+	fault int // Remove / Clear only: the fault-th onDelete callback of this call panics (0 = none)
 }
 
 type lruClass struct {
@@ -632,6 +775,7 @@ type lruClass struct {
 	universe   func(cap int) int
 	g, r, c, e int  // weights: GetOrCreate, Remove, Clear, GetOrCreate of a key that cannot be created
 	cycle      byte // 'C' / 'R': strict alternation GetOrCreate(k); Clear | Remove(k)
+	f          int  // percentage of the Remove / Clear calls whose onDelete callback panics (the caller recovers)
 }
 
 var lruClasses = []lruClass{
@@ -642,6 +786,8 @@ var lruClasses = []lruClass{
 	{name: "evict-heavy", universe: func(c int) int { return 4*c + 3 }, g: 100},
 	{name: "hit-heavy", universe: func(c int) int { return c }, g: 97, e: 3},
 	{name: "mixed", universe: func(c int) int { return 2*c + 1 }, g: 60, r: 25, c: 5, e: 10},
+	{name: "callback-panic-clear-heavy", universe: func(c int) int { return 2*c + 1 }, g: 58, r: 8, c: 32, e: 2, f: 35},
+	{name: "callback-panic-mixed", universe: func(c int) int { return 2*c + 1 }, g: 60, r: 25, c: 8, e: 7, f: 25},
 }
 
 func classByName(n string) *lruClass {
@@ -661,11 +807,11 @@ func genLRU(k lruCase) []lruOp {
 	if cl.cycle != 0 {
 		for len(ops) < k.N {
 			key := rng.Intn(u)
-			ops = append(ops, lruOp{'G', key})
+			ops = append(ops, lruOp{kind: 'G', key: key})
 			if cl.cycle == 'C' {
-				ops = append(ops, lruOp{'C', 0})
+				ops = append(ops, lruOp{kind: 'C'})
 			} else {
-				ops = append(ops, lruOp{'R', key})
+				ops = append(ops, lruOp{kind: 'R', key: key})
 			}
 		}
 		return ops[:k.N]
@@ -675,13 +821,19 @@ func genLRU(k lruCase) []lruOp {
 		x := rng.Intn(total)
 		switch {
 		case x < cl.g:
-			ops = append(ops, lruOp{'G', rng.Intn(u)})
+			ops = append(ops, lruOp{kind: 'G', key: rng.Intn(u)})
 		case x < cl.g+cl.r:
-			ops = append(ops, lruOp{'R', rng.Intn(u)})
+			ops = append(ops, lruOp{kind: 'R', key: rng.Intn(u)})
 		case x < cl.g+cl.r+cl.c:
-			ops = append(ops, lruOp{'C', 0})
+			ops = append(ops, lruOp{kind: 'C'})
 		default:
-			ops = append(ops, lruOp{'G', failingKey + rng.Intn(u)})
+			ops = append(ops, lruOp{kind: 'G', key: failingKey + rng.Intn(u)})
+		}
+		if o := &ops[len(ops)-1]; cl.f > 0 && o.kind != 'G' && rng.Intn(100) < cl.f {
+			o.fault = 1
+			if o.kind == 'C' {
+				o.fault = 1 + rng.Intn(3) // Clear: the first, second or third entry's callback
+			}
 		}
 	}
 	return ops
@@ -696,10 +848,13 @@ const (
 	kRemove  = "Remove"
 	kRemoveN = "Remove-absent"
 	kClear   = "Clear"
+	// the onDelete callback panicked inside the call, the caller recovered
+	kClearPanic  = "Clear-callback-panic"
+	kRemovePanic = "Remove-callback-panic"
 )
 
 // the kinds that the culprit analysis can leave out (misses are the base load and always stay)
-var droppable = []string{kClear, kRemove, kHit, kError}
+var droppable = []string{kClear, kRemove, kHit, kError, kClearPanic, kRemovePanic}
 
 type lruOutcome struct {
 	v        *vio   // bound broken / list inconsistent (signature prefix without the culprit)
@@ -725,18 +880,28 @@ func runLRU(k lruCase, visit func(uint64)) lruOutcome {
 		}
 		return key + 7, nil
 	}
+	armed := 0 // > 0: the armed-th onDelete callback from now on panics
+	onDelete := func(key int) {
+		delete(resident, key)
+		evictions++
+		if armed > 0 {
+			if armed--; armed == 0 {
+				panic(errCallback)
+			}
+		}
+	}
 	var c cacheT
 	if k.Ecache {
 		ec, err := lru.NewECache[*pkT, int, int](k.Cap, func(p *pkT) int { return p.id },
 			func(p *pkT) (int, error) { return create(p.id) },
-			func(p *pkT, v int) { delete(resident, p.id); evictions++ })
+			func(p *pkT, v int) { onDelete(p.id) })
 		if err != nil {
 			out.aborted = "NewECache: " + err.Error()
 			return out
 		}
 		c = extCache{ec}
 	} else {
-		pc, err := lru.NewCache[int, int](k.Cap, create, func(key int, v int) { delete(resident, key); evictions++ })
+		pc, err := lru.NewCache[int, int](k.Cap, create, func(key int, v int) { onDelete(key) })
 		if err != nil {
 			out.aborted = "NewCache: " + err.Error()
 			return out
@@ -764,14 +929,24 @@ func runLRU(k lruCase, visit func(uint64)) lruOutcome {
 			kind = kRemoveN
 			if resident[o.key] {
 				kind = kRemove
+				if o.fault > 0 {
+					kind = kRemovePanic
+				}
 			}
 		default:
 			kind = kClear
+			if o.fault > 0 && len(resident) >= o.fault {
+				kind = kClearPanic
+			}
 		}
 		if drop[kind] || (kind == kRemoveN && drop[kRemove]) {
 			continue
 		}
 		ev0 := evictions
+		armed = 0
+		if kind == kClearPanic || kind == kRemovePanic {
+			armed = o.fault
+		}
 		var pan any
 		switch o.kind {
 		case 'G':
@@ -789,10 +964,17 @@ func runLRU(k lruCase, visit func(uint64)) lruOutcome {
 		default:
 			pan = guard(func() { c.Clear() })
 		}
+		if armed = 0; pan == errCallback && (kind == kClearPanic || kind == kRemovePanic) {
+			pan = nil // the injected failure of the callback, recovered by the caller: the history goes on
+		}
 		out.kinds[kind]++
 		if ncalls < 24 {
 			ncalls++
-			if o.kind == 'C' {
+			if kind == kClearPanic {
+				out.calls += fmt.Sprintf("Clear[callback %d panics]; ", o.fault)
+			} else if kind == kRemovePanic {
+				out.calls += fmt.Sprintf("Remove(%d)[callback panics]; ", o.key)
+			} else if o.kind == 'C' {
 				out.calls += "Clear; "
 			} else {
 				out.calls += fmt.Sprintf("%s(%d); ", map[byte]string{'G': "GetOrCreate", 'R': "Remove"}[o.kind], o.key)
@@ -992,21 +1174,22 @@ func timing(run *report.Run, cycles int) {
 // =============================================================================================
 
 type plan struct {
-	mapDepth, mapRandom, mapRandomLen int
-	lruPerHistory                     int
-	timingCycles                      int
+	mapDepth, mixDepth, mapRandom, mapRandomLen int
+	lruPerHistory                               int
+	timingCycles                                int
 }
 
 func planFor(thorough bool) plan {
 	if thorough {
-		return plan{mapDepth: 9, mapRandom: 100000, mapRandomLen: 1000, lruPerHistory: 50000, timingCycles: 60000}
+		return plan{mapDepth: 9, mixDepth: 7, mapRandom: 100000, mapRandomLen: 1000, lruPerHistory: 50000, timingCycles: 60000}
 	}
-	return plan{mapDepth: 8, mapRandom: 4000, mapRandomLen: 1000, lruPerHistory: 5000, timingCycles: 20000}
+	return plan{mapDepth: 8, mixDepth: 6, mapRandom: 5000, mapRandomLen: 1000, lruPerHistory: 5000, timingCycles: 20000}
 }
 
 func runShard(pl plan, seed int64, shard, of int) *collector {
 	c := newCollector()
-	enumerate(c, 3, 3, pl.mapDepth, shard, of)
+	enumerate(c, 3, 3, pl.mapDepth, false, shard, of)
+	enumerate(c, 2, 2, pl.mixDepth, true, shard, of)
 	randomMapPass(c, seed, pl.mapRandom, pl.mapRandomLen, shard, of)
 	lruPass(c, seed, pl.lruPerHistory, shard, of)
 	for h := range c.seen {
@@ -1099,9 +1282,10 @@ func TestCheck(t *testing.T) {
 
 	run := report.New("C11", "exploration")
 	defer run.Finish(t)
-	run.Rule("(A) iterable.Map: every legal sequence over {Add(k absent), Remove(k present), First, NewIterator (<=3 open), It[i].HasNext, It[i].Next, It[i].Close}, k in {a,b,c} up to key renaming, of length 1..depth, and seeded random histories of 1000 calls over 2-5 keys and up to 8 iterators (Add/Remove of any key); each followed by closing every open iterator (ascending and descending slot order). Through VerifWalk after every call: list consistent, nodes <= Len()+1+j and removed-but-linked <= j with j iterators open; with none open nodes == Len()+1, no removed entry linked, reference counts 0. (C) concurrent histories: 2-8 goroutines hammer one cache, at every quiescent point entries <= capacity, nodes <= capacity+1, no in-flight residue. (B) lru.NewCache / lru.NewECache: for every capacity 1..64 seven seeded history classes (GetOrCreate;Clear cycles, Clear-heavy, GetOrCreate;Remove cycles, Remove-heavy, eviction-heavy, hit-heavy, mixed; with injected create errors); through VerifRetained after every call: recency list consistent and nodes <= capacity+1. distinct = distinct observations (A: call kind, Len, open iterators, nodes, removed-but-linked, reference sum; B: capacity, kind of call as it turned out, empty/partial/full, nodes-resident-1)")
+	run.Rule("(A) iterable.Map: every legal sequence over {Add(k absent), Remove(k present), First, NewIterator (<=3 open), It[i].HasNext, It[i].Next, It[i].Close}, k in {a,b,c} up to key renaming, of length 1..depth, and seeded random histories of 1000 calls over 2-5 keys and up to 8 iterators (Add/Remove of any key); each followed by closing every open iterator (ascending and descending slot order); iterators are also taken through the library's iterable.Mixer (map iterator mixed with a slice source, with a source whose Close reports an error - in either position -, with a second map iterator, nested): every sequence of length 1..mixDepth over 2 keys and 2 slots that builds a Mixer, and random histories with Mixers; closing the Mixer is the only Close its owner can issue and counts as closing every map iterator below it. Through VerifWalk after every call: list consistent, nodes <= Len()+1+j and removed-but-linked <= j with j iterators open; with none open nodes == Len()+1, no removed entry linked, reference counts 0. (C) concurrent histories: 2-8 goroutines hammer one cache, at every quiescent point entries <= capacity, nodes <= capacity+1, no in-flight residue. (B) lru.NewCache / lru.NewECache: for every capacity 1..64 nine seeded history classes (GetOrCreate;Clear cycles, Clear-heavy, GetOrCreate;Remove cycles, Remove-heavy, eviction-heavy, hit-heavy, mixed; with injected create errors; and two classes in which the onDelete callback panics inside a share of the Remove calls and at the first/second/third entry of a share of the Clear calls, the caller recovering and going on); through VerifRetained after every call: recency list consistent and nodes <= capacity+1. distinct = distinct observations (A: call kind, Len, open iterators, nodes, removed-but-linked, reference sum; B: capacity, kind of call as it turned out, empty/partial/full, nodes-resident-1)")
 	run.Assume("parts (A) and (B): one goroutine; iterators are never used after Close; no iterator of the harness is open on the caches' internal map")
-	run.Assume("a call that panics ends the history without a verdict here (panics are C10's subject); such histories are counted and make the run inconclusive")
+	run.Assume("a call that panics by itself ends the history without a verdict here (panics are C10's subject); such histories are counted and make the run inconclusive. A panic injected through the onDelete callback is part of the history: it is raised only inside Remove and Clear, which release the cache's lock by defer so that the cache stays usable; never in an eviction or in create, where the unchanged library keeps its lock / in-flight entry and the cache cannot serve further calls")
+	run.Assume("an iterator handed to iterable.Mixer is owned by the Mixer: Mixer.Close is the close of both sources whatever error it reports")
 	run.Assume("'cost does not grow with history length' is decided through the node count (every operation's work is bounded by the list it walks); the timing comparison is an observation only")
 
 	if p := os.Getenv("VERIF_REPLAY"); p != "" {
@@ -1111,7 +1295,8 @@ func TestCheck(t *testing.T) {
 	pl := planFor(run.Thorough())
 	run.Note("bounds", map[string]any{
 		"map_enumeration":  fmt.Sprintf("all legal sequences of length 1..%d over 3 keys, <=3 open iterators and First, complete up to key renaming, each with both closing orders", pl.mapDepth),
-		"map_random":       fmt.Sprintf("%d histories of %d calls", pl.mapRandom, pl.mapRandomLen),
+		"map_random":       fmt.Sprintf("%d histories of %d calls, %d profiles of which 2 build Mixers", pl.mapRandom, pl.mapRandomLen, len(profiles)),
+		"map_mixers":       fmt.Sprintf("all legal sequences of length 1..%d over 2 keys and 2 slots that contain a NewMixer (%d variants)", pl.mixDepth, len(mixVariants)),
 		"lru":              fmt.Sprintf("capacities 1..64 x %d history classes x %d generated calls, hook after every call", len(lruClasses), pl.lruPerHistory),
 		"lru_bound":        "nodes <= capacity+1",
 		"lru_history_kind": "cache and ecache constructors alternate over (capacity, class)",
